@@ -65,6 +65,18 @@ def kt_ob(name, spec, family='', bounds='', timeout=120, cost=5, known=None):
                 assign = replay[0] if isinstance(replay, tuple) else replay
                 ok, detail = sp['replay'](assign)
                 return {'ok': ok, 'detail': detail, 'case': sp.get('show', str)(assign)}
+            # concrete witnesses first (as for XH obligations): boundary inputs replayed natively against the reference;
+            # a failing one is a reproduced violation whatever the translator can or cannot encode
+            for assign in sp.get('samples', []):
+                if sp.get('region_py') and sp['region_py'](assign):
+                    continue
+                ok, detail = sp['replay'](assign)
+                if not ok:
+                    res.update(status='VIOLATED', reproduced=True, detail='native witness fails: ' + detail, replay=detail, cex=repr((assign,)), case=sp.get('show', str)(assign),
+                               paths=0)
+                    res['solver_queries'] = K.STATS['queries'] - q0
+                    res['solver_time_s'] = round(K.STATS['time'] - s0, 4)
+                    return res
             leaves, interp, vars_ = sp['encode']()
             res['paths'] = len(leaves)
             res['functions'] = sorted(interp.inlined)
